@@ -578,3 +578,151 @@ where
     }
     Ok(())
 }
+
+
+//-----------------------------------------------------------------------------
+
+/// A piecewise periodic set with closed-form answers: the universe is cut into zones, zone z = [start, end) holds the
+/// positions start, start + k, start + 2k, ... (k = 0: no position). Needs no memory, so it models vectors beyond 2^32 bits.
+#[derive(Clone, Debug)]
+pub struct PeriodicModel {
+    /// (start, end, period)
+    pub zones: Vec<(usize, usize, usize)>,
+    /// ones / zeros before each zone, plus the totals at the end
+    cum_ones: Vec<usize>,
+    cum_zeros: Vec<usize>,
+}
+
+impl PeriodicModel {
+    /// zones given as (length, period)
+    pub fn new(spec: &[(usize, usize)]) -> PeriodicModel {
+        let mut zones = Vec::new();
+        let mut cum_ones = vec![0usize];
+        let mut cum_zeros = vec![0usize];
+        let mut start = 0usize;
+        for &(len, k) in spec {
+            if len == 0 {
+                continue;
+            }
+            let end = start + len;
+            let ones = if k == 0 { 0 } else { (len + k - 1) / k };
+            zones.push((start, end, k));
+            cum_ones.push(cum_ones.last().unwrap() + ones);
+            cum_zeros.push(cum_zeros.last().unwrap() + (len - ones));
+            start = end;
+        }
+        PeriodicModel { zones, cum_ones, cum_zeros }
+    }
+
+    fn zone_of(&self, i: usize) -> Option<usize> {
+        let z = self.zones.partition_point(|&(_, end, _)| end <= i);
+        if z < self.zones.len() {
+            Some(z)
+        } else {
+            None
+        }
+    }
+
+    /// the set positions of zone `z`, for building the real vector
+    pub fn zone_ones(&self, z: usize) -> impl Iterator<Item = usize> + '_ {
+        let (start, end, k) = self.zones[z];
+        let count = if k == 0 { 0 } else { (end - start + k - 1) / k };
+        (0..count).map(move |j| start + j * k)
+    }
+}
+
+impl Model for PeriodicModel {
+    fn n(&self) -> usize {
+        self.zones.last().map(|z| z.1).unwrap_or(0)
+    }
+    fn m(&self) -> usize {
+        *self.cum_ones.last().unwrap()
+    }
+    fn get(&self, i: usize) -> bool {
+        match self.zone_of(i) {
+            Some(z) => {
+                let (start, _, k) = self.zones[z];
+                k > 0 && (i - start) % k == 0
+            }
+            None => false,
+        }
+    }
+    fn rank(&self, i: usize) -> usize {
+        match self.zone_of(i) {
+            Some(z) => {
+                let (start, _, k) = self.zones[z];
+                self.cum_ones[z] + if k == 0 { 0 } else { (i - start + k - 1) / k }
+            }
+            None => self.m(),
+        }
+    }
+    fn select(&self, r: usize) -> Option<usize> {
+        if r >= self.m() {
+            return None;
+        }
+        let z = self.cum_ones.partition_point(|&c| c <= r) - 1;
+        let (start, _, k) = self.zones[z];
+        Some(start + (r - self.cum_ones[z]) * k)
+    }
+    fn select_zero(&self, r: usize) -> Option<usize> {
+        if r >= self.zeros() {
+            return None;
+        }
+        let z = self.cum_zeros.partition_point(|&c| c <= r) - 1;
+        let (start, _, k) = self.zones[z];
+        let q = r - self.cum_zeros[z];
+        Some(match k {
+            0 => start + q,
+            // k == 1 has no zeros and is never selected here
+            _ => start + (q / (k - 1)) * k + 1 + q % (k - 1),
+        })
+    }
+    fn predecessor(&self, v: usize) -> Option<(usize, usize)> {
+        let n = self.n();
+        if n == 0 {
+            return None;
+        }
+        let v = v.min(n - 1);
+        let r = self.rank(v + 1);
+        if r == 0 {
+            None
+        } else {
+            Some((r - 1, self.select(r - 1).unwrap()))
+        }
+    }
+    fn successor(&self, v: usize) -> Option<(usize, usize)> {
+        if v >= self.n() {
+            return None;
+        }
+        let r = self.rank(v);
+        self.select(r).map(|p| (r, p))
+    }
+}
+
+#[cfg(test)]
+mod periodic_tests {
+    use super::*;
+
+    #[test]
+    fn periodic_model_agrees_with_set_model() {
+        for spec in [vec![(10usize, 3usize), (7, 0), (9, 1), (20, 2), (5, 7)], vec![(0, 1), (64, 64), (1, 1)], vec![(13, 0)], vec![(100, 9), (3, 5)], vec![]] {
+            let pm = PeriodicModel::new(&spec);
+            let mut ones = Vec::new();
+            for z in 0..pm.zones.len() {
+                ones.extend(pm.zone_ones(z));
+            }
+            let sm = SetModel::new(pm.n(), ones);
+            assert_eq!(pm.m(), sm.m());
+            for i in 0..pm.n() + 3 {
+                if i < pm.n() {
+                    assert_eq!(pm.get(i), sm.get(i), "get {}", i);
+                }
+                assert_eq!(pm.rank(i), sm.rank(i), "rank {}", i);
+                assert_eq!(pm.select(i), sm.select(i), "select {}", i);
+                assert_eq!(pm.select_zero(i), sm.select_zero(i), "select_zero {} in {:?}", i, spec);
+                assert_eq!(pm.predecessor(i), sm.predecessor(i), "pred {}", i);
+                assert_eq!(pm.successor(i), sm.successor(i), "succ {}", i);
+            }
+        }
+    }
+}
